@@ -1,6 +1,7 @@
 From Coq Require Import ZArith List.
-From BQ Require Import rt.SchedPre gen.SchedArith rt.Sched.
+From BQ Require Import rt.SchedPre gen.SchedArith rt.Sched rt.SchedTree.
 From Coq Require Extraction ExtrOcamlBasic.
 Extraction "sched_model.ml" init step quiescent assign_tasks schedule_tasks idle_ids
   get_num_of_tasks_sent_since handle_waiting is_my_worker get_employee_responsible_for
-  ctm_step_size ctm_lb ctm_ub send_up_or_schedule_tasks update_upstream_idle_workers.
+  ctm_step_size ctm_lb ctm_ub send_up_or_schedule_tasks update_upstream_idle_workers
+  tinit tstep tquiescent.
